@@ -34,7 +34,86 @@ pub fn families() -> Vec<Family> {
         .runs(20_000, 1_200_000)
         .steps(3_000_000)
         .tokio(),
+        Family::new(
+            "c15_registry_teardown",
+            "C15",
+            "the registry half of a disconnect on its own, under the thread scheduler: what the server's disconnect callback does (remove the peer) races handlers and background threads that still assign aliases to that peer or look it up; afterwards the peer and every one of its aliases must be absent, whatever alias() returned",
+            c15_registry_teardown,
+        )
+        .runs(60_000, 3_600_000)
+        .steps(100_000),
     ]
+}
+
+/// A key whose conversion to `String` is a scheduling point.
+struct YieldingKey(String);
+impl From<YieldingKey> for String {
+    fn from(k: YieldingKey) -> String {
+        simkernel::thread::yield_now();
+        k.0
+    }
+}
+
+fn c15_registry_teardown(case: &Case) {
+    use repe::peer::{NotifyBody, PeerSendError, PeerSink};
+    struct Null;
+    impl PeerSink for Null {
+        fn send_notify(&self, _: &str, _: NotifyBody) -> Result<(), PeerSendError> {
+            Ok(())
+        }
+        fn is_connected(&self) -> bool {
+            true
+        }
+    }
+    let reg = PeerRegistry::new();
+    let n_peers = pick(&[1u64, 2, 3]);
+    for id in 0..n_peers {
+        reg.insert(PeerHandle::new(PeerId(id), Arc::new(Null)));
+        reg.alias(PeerId(id), format!("connect-{id}"));
+    }
+    reg.alias(PeerId(0), "shared");
+    let n_aliasers = pick(&[1usize, 2, 3]);
+    case.sample(json!({"peers": n_peers, "threads_assigning_aliases_to_the_departing_peer": n_aliasers}));
+    let results: Arc<std::sync::Mutex<Vec<(String, bool)>>> = Default::default();
+    let mut hs = Vec::new();
+    for t in 0..n_aliasers {
+        let (r, res) = (reg.clone(), results.clone());
+        let yielding = simkernel::choose(2) == 0;
+        let key = if simkernel::choose(3) == 0 { "shared".to_string() } else { format!("late-{t}") };
+        hs.push(simkernel::thread::spawn(move || {
+            let ok = if yielding { r.alias(PeerId(0), YieldingKey(key.clone())) } else { r.alias(PeerId(0), key.clone()) };
+            res.lock().unwrap().push((key, ok));
+        }));
+    }
+    // the disconnect callback of peer 0
+    let r2 = reg.clone();
+    hs.push(simkernel::thread::spawn(move || {
+        r2.remove(PeerId(0));
+    }));
+    if n_peers > 1 && simkernel::choose(2) == 0 {
+        let r3 = reg.clone();
+        hs.push(simkernel::thread::spawn(move || {
+            r3.alias(PeerId(1), "shared");
+        }));
+    }
+    for h in hs {
+        h.join().ok();
+    }
+    let res = results.lock().unwrap().clone();
+    case.check(reg.get(PeerId(0)).is_none(), "registry-residue", || "the removed peer is still in the registry".into());
+    let left = reg.aliases_for(PeerId(0));
+    case.check(left.is_empty() && reg.key_for(PeerId(0)).is_none(), "registry-residue", || format!("peer 0 was removed; aliases_for(0) = {left:?}, key_for(0) = {:?}; alias() calls returned {res:?}", reg.key_for(PeerId(0))));
+    for k in ["connect-0", "late-0", "late-1", "late-2", "shared"] {
+        let owner = reg.get_by(k).map(|p| p.peer_id().0);
+        case.check(owner != Some(0), "registry-residue", || format!("key {k:?} still resolves to the removed peer; alias() calls returned {res:?}"));
+    }
+    for id in 1..n_peers {
+        case.check(reg.get_by(&format!("connect-{id}")).map(|p| p.peer_id().0) == Some(id), "registry-presence", || format!("a bystander's alias connect-{id} was lost"));
+    }
+    if res.iter().any(|(_, ok)| *ok) && res.iter().any(|(_, ok)| !*ok) {
+        case.probe("alias_raced_the_disconnect_both_ways");
+    }
+    case.nontrivial();
 }
 
 tokio::task_local! {
